@@ -50,6 +50,13 @@ Depth1 == {Un(a, b) : a \in Prims2, b \in Prims2} \cup {Cu(a, b) : a \in Prims2,
           \cup {An(a, b) : a \in Prims2, b \in Prims2}
           \cup {Tr(a, t) : a \in Prims2, t \in TransVecs} \cup {Ro(a, m, p) : a \in Prims2, m \in Rots, p \in RotPts}
           \cup {Pr(a, i) : a \in Prims2, i \in Ints} \cup {Pr(d, i) : d \in {DepCir, DepCirT, DepCirR}, i \in Ints}
+          \* Boolean first factor that depends on the second factor's coordinate: its interior sampler is called with n = 1 for
+          \* one row per point, every row with another shape
+          \cup {Pr(b, i) : b \in {Cu(DepCir, Par(V2(0, 0), V2(8, 0), V2(0, 8))), An(DepCirR, Tri(V2(0, 0), V2(10, 0), V2(0, 8))),
+                                   Cu(Par(V2(-8, -6), V2(8, -6), V2(-8, 6)), DepCir),
+                                   \* a disc travelling with 2u, cut in half: rows hardly overlap, half the candidates are rejected
+                                   An(Cir(<<A2(-6, "u", 2), A0(0)>>, A0(4)), Par(V2(-16, 0), V2(16, 0), V2(-16, 8))),
+                                   Cu(Cir(<<A2(-6, "u", 2), A0(0)>>, A0(4)), Par(V2(-16, 0), V2(16, 0), V2(-16, 8)))}, i \in Ints}
           \cup {Pr(i, Tr(a, t)) : i \in Ints, a \in {Cir(V2(0, 0), A0(6)), Par(V2(0, 0), V2(8, 0), V2(0, 8))}, t \in TransVecs}    \* transformed second factor
           \cup {Pr(i, Ro(a, "p345", p)) : i \in Ints, a \in {Tri(V2(0, 0), V2(10, 0), V2(0, 8))}, p \in RotPts}
 Exh == Prims2 \cup Ints \cup {Sph, SphT} \cup {x \in Depth1 : x.k \notin {"union", "cut", "and"} \/ x.l # x.r}
